@@ -489,6 +489,15 @@ func vfCrashRun(sc vfScript, id string, crashAt int, retry bool) (out []map[stri
 			out = append(out, w.keys(s))
 		}
 	}
+	// one more, clean, restart of every store: the keys read afterwards are still the ones in use before (a key
+	// that lives only in the memory of the instance that generated it shows here)
+	for _, s := range w.order {
+		if w.st[s].joined {
+			w.open(s, w.st[s].ds.snapshot())
+			out = append(out, map[string]any{"ev": "restart", "s": s})
+			out = append(out, w.keys(s))
+		}
+	}
 	out = append(out, map[string]any{"ev": "end"})
 	return out, w.ctl.mseq, preludeT, hitPrelude
 }
